@@ -79,7 +79,7 @@ def main():
             if rc != 0:
                 results.append((name, "APPLY-FAILED", out.strip()[-200:]))
                 continue
-            rc, out = sh("go build ./... && go vet . >/dev/null 2>&1; go test -count=1 . 2>&1 | tail -3", cwd=REPO)
+            rc, out = sh("go build ./... && go vet . >/dev/null 2>&1; go test -count=1 -timeout 90s . 2>&1 | tail -3", cwd=REPO)
             stock = "ok" if re.search(r"^ok\s", out, re.M) else "STOCK-FAILS"
             if stock != "ok":
                 results.append((name, stock, out.strip()[-300:].replace("\n", " | ")))
